@@ -1,7 +1,8 @@
 package remote
 
-// C16 harness: the real streamReader.Receive is fed one envelope whose table
-// lengths are chosen and whose per-message indices are symbolic int32.
+// C16 harness: the real streamReader.Receive is fed a well-formed envelope and
+// then, on the same stream, one envelope whose table lengths are chosen and
+// whose per-message indices are symbolic int32.
 
 import (
 	"errors"
@@ -57,6 +58,17 @@ func ZZ_C16_Reader() {
 	ze.RegisterProc(sw.PID().ID, sw)
 	sw.inbox.Start(sw)
 
+	// the stream has already carried a well-formed envelope (two messages of two types to t/0): whatever the
+	// reader keeps between envelopes is in place when the arbitrary one arrives
+	pre := &Envelope{
+		TypeNames: []string{"ty.B", "ty.A"},
+		Targets:   []*actor.PID{actor.NewPID("node:1", "t/0")},
+		Senders:   []*actor.PID{actor.NewPID("node:2", "s/pre")},
+		Messages: []*Message{
+			{Data: []byte{200}, TargetIndex: 0, SenderIndex: 0, TypeNameIndex: 0},
+			{Data: []byte{201}, TargetIndex: 0, SenderIndex: 0, TypeNameIndex: 1},
+		},
+	}
 	env := &Envelope{}
 	typePool := []string{"ty.A", "ty.B", "unknown"}
 	nT := zzrt.Choose(3)
@@ -90,7 +102,7 @@ func ZZ_C16_Reader() {
 				escaped = true
 			}
 		}()
-		r.Receive(&zzStream{envs: []*Envelope{env}})
+		r.Receive(&zzStream{envs: []*Envelope{pre, env}})
 	}()
 	zzrt.Assert(!escaped, "C16:inbound-envelope-panics-reader")
 	zzrt.Quiesce() // whatever was handed to the node's own actors is processed by their workers (a panic there kills the node)
@@ -101,6 +113,13 @@ func ZZ_C16_Reader() {
 			pl, ok := g.Msg.(zzPayload)
 			zzrt.Assert(ok, "C16:delivered-something-not-decoded")
 			if !ok {
+				continue
+			}
+			if pl.j >= 200 {
+				// the earlier, well-formed envelope
+				zzrt.Assert(pl.j <= 201 && !seen[pl.j] && k == 0 && g.To == pre.Targets[0] && g.Sender == pre.Senders[0] &&
+					pl.tname == pre.TypeNames[pl.j-200], "C16:well-formed-envelope-misdelivered")
+				seen[pl.j] = true
 				continue
 			}
 			zzrt.Assert(pl.j >= 0 && pl.j < nM && !seen[pl.j], "C16:message-delivered-twice")
@@ -121,9 +140,9 @@ func ZZ_C16_Reader() {
 				zzrt.Assert(si >= 0 && si < nS && g.Sender == env.Senders[si], "C16:delivered-with-unnamed-sender")
 			}
 			zzrt.Reach("delivered")
-			_ = k
 		}
 	}
+	zzrt.Assert(seen[200] && seen[201], "C16:well-formed-envelope-not-delivered")
 }
 
 // ZZ_C16_Bytes: whatever bytes a peer sends. The real Envelope.UnmarshalVT
